@@ -36,8 +36,8 @@ Lemma sp_main_plain c pk t :
 Proof.
   intros Hp (C1 & C2 & C3 & C4 & C5).
   destruct (plain_neq c Hp) as (N1 & N2 & N3 & N4).
-  destruct t as [str idn cmt bq lead bs blk blen star x ret]. cbn in C1, C2, C3, C4, C5. subst.
-  unfold sp_main. cbn [sp_block sp_string sp_comment sp_bq sp_ident sp_star sp_blen sp_x sp_ret sp_lead sp_bs].
+  destruct t as [str idn cmt bq lead bs blk blen star esc x ret]. cbn in C1, C2, C3, C4, C5. subst.
+  unfold sp_main. cbn [sp_block sp_string sp_comment sp_bq sp_ident sp_star sp_esc sp_blen sp_x sp_ret sp_lead sp_bs].
   rewrite N1, N2, N4. cbn [andb negb]. fold (is_ident c).
   destruct (Bool.eqb (is_ident c) idn) eqn:E.
   - unfold calm, sp_pushc. cbn. rewrite ?N4, ?andb_false_r. cbn. auto 10.
@@ -84,7 +84,7 @@ Proof.
     cbn [drop_while sp_run]. destruct (is_ascii_ws c) eqn:W.
     + assert (E : sp_step c (match r with [] => None | p :: _ => Some p end) t =
                   mkSp (sp_string t) (sp_ident t) (sp_comment t) (sp_bq t) true false (sp_block t) (sp_blen t)
-                       (sp_star t) (sp_x t) (sp_ret t)).
+                       (sp_star t) (sp_esc t) (sp_x t) (sp_ret t)).
       { unfold sp_step. rewrite L, N3, W, BS. reflexivity. }
       rewrite E. cbv zeta in IH. rewrite IH; [reflexivity|assumption|].
       unfold leading. cbn. auto 10.
@@ -94,7 +94,7 @@ Proof.
       { unfold sp_step. rewrite L, N3, W. reflexivity. }
       rewrite E.
       (* sp_main only looks at sp_lead to clear it: same result as from the calm twin of t *)
-      set (t0 := mkSp (sp_string t) (sp_ident t) (sp_comment t) (sp_bq t) false (sp_bs t) (sp_block t) (sp_blen t) (sp_star t) (sp_x t) (sp_ret t)).
+      set (t0 := mkSp (sp_string t) (sp_ident t) (sp_comment t) (sp_bq t) false (sp_bs t) (sp_block t) (sp_blen t) (sp_star t) (sp_esc t) (sp_x t) (sp_ret t)).
       assert (E0 : sp_main c (match r with [] => None | p :: _ => Some p end) t =
                    sp_main c (match r with [] => None | p :: _ => Some p end) t0) by (destruct t; reflexivity).
       rewrite E0.
@@ -109,7 +109,7 @@ Theorem split_text_plain s :
   forallb plain s = true -> split_text s = runs (drop_while is_ascii_ws s).
 Proof.
   intros Hp. unfold split_text, runs.
-  pose proof (sp_run_lead s (mkSp false false false false true false false 0 false [] []) Hp) as H.
+  pose proof (sp_run_lead s (mkSp false false false false true false false 0 false false [] []) Hp) as H.
   cbv zeta in H. rewrite H; [reflexivity|]. unfold leading. cbn. auto 10.
 Qed.
 
